@@ -28,7 +28,7 @@ pub fn c14_q_eventdecoder() {
     let n0 = calls.get();
     let out = d.process_keyevent(KeyEvent::new(k, s));
     let n1 = calls.get();
-    println!("C14 mods={:?} mode0={:?} mode={:?} tag={} key={:?} state={:?} out={:?} layout_calls={}", m, h0, mode, tag, k, s, out, n1.wrapping_sub(n0));
+    crate::show!("C14 mods={:?} mode0={:?} mode={:?} tag={} key={:?} state={:?} out={:?} layout_calls={}", m, h0, mode, tag, k, s, out, n1.wrapping_sub(n0));
     if s != KeyState::Down {
         assert!(out.is_none(), "C14: a release or one-shot event produced a decoded key");
         assert!(n1 == n0, "C14: the layout was consulted for a release or one-shot event");
@@ -63,7 +63,7 @@ pub fn c14_q_keyboard() {
     let n0 = calls.get();
     let out = kb.process_keyevent(KeyEvent::new(k, s));
     let n1 = calls.get();
-    println!("C14 keyboard mods={:?} mode0={:?} mode={:?} key={:?} state={:?} out={:?}", m, h0, mode, k, s, out);
+    crate::show!("C14 keyboard mods={:?} mode0={:?} mode={:?} key={:?} state={:?} out={:?}", m, h0, mode, k, s, out);
     if s != KeyState::Down {
         assert!(out.is_none() && n1 == n0, "C14: a release or one-shot event produced a decoded key");
     } else if k == KeyCode::NumpadLock && m.rctrl2 {
@@ -89,7 +89,7 @@ pub fn c14_t_change_real_layout() {
     let o1 = d.process_keyevent(KeyEvent::new(k, KeyState::Down));
     d.change_layout(AnyLayout::Azerty(Azerty));
     let o2 = d.process_keyevent(KeyEvent::new(k, KeyState::Down));
-    println!("C14 change_layout key={:?} mods={:?} mode={:?} uk={:?} azerty={:?}", k, m, h, o1, o2);
+    crate::show!("C14 change_layout key={:?} mods={:?} mode={:?} uk={:?} azerty={:?}", k, m, h, o1, o2);
     assert!(o1 == Some(Uk105Key.map_keycode(k, &m, h)), "C14: installed layout not used");
     assert!(o2 == Some(Azerty.map_keycode(k, &m, h)), "C14: change_layout did not take effect on the next key");
     kani::cover!(o1 != o2);
